@@ -243,7 +243,8 @@ prop("C10", "receiver fed arbitrary bytes",
      OUT_IO,
      io_b("recv_hostile", "recv step on arbitrary bytes", quick=["V_U8", "U_E2"]) + io_a("recv_hostile", "async recv step on arbitrary bytes", quick=["U_E2_q"])
      + ro("accept", "recv hands out from_bytes_unchecked(buffer) after validate(buffer) succeeded: for message types more aligned than their tail, validate Ok => the view is a valid value inside the received bytes", shapes_quick=["U_S1", "U_S2", "U_E1"], shapes_thorough=["U_E3", "U_E4"])
-     + ro("size", "the guard's drop skips size() bytes: size() <= bytes received, for padded message types", shapes_quick=["U_S2", "U_E1", "V_U8L32"], shapes_thorough=["U_S1", "V_A3"]),
+     + ro("size", "the guard's drop skips size() bytes: size() <= bytes received, for padded message types", shapes_quick=["U_S2", "U_E1", "V_U8L32"], shapes_thorough=["U_S1", "V_A3"])
+     + ro("total", "recv re-validates the buffer after every read: validate of a FlexVec message never panics on a truncated or hostile offset chain", shapes_quick=["X_U8"], shapes_thorough=["X_U16", "X_B"]),
      IO_ASSUME)
 
 # ---------------------------------------------------------------- histories by one step
